@@ -8,7 +8,12 @@ import UnytModel.RegistryC12
 namespace Unyt.RegC12.Witness
 open Unyt Unyt.RegC12
 
-deriving instance DecidableEq for Unyt.Entry
+/-- decidable equality of table rows (declared here under its own name: the shared `Entry` derives
+    only `Repr`) -/
+instance entryDecEq {K : Type} [DecidableEq K] : DecidableEq (Entry K) := fun a b =>
+  decidable_of_iff (a.scale = b.scale ∧ a.dim = b.dim ∧ a.offset = b.offset ∧ a.prefixable = b.prefixable)
+    (by cases a; cases b; simp)
+
 deriving instance DecidableEq for Unyt.RegC12.Out
 
 /-- integer powers by repeated multiplication; other exponents are not used by the witnesses -/
